@@ -61,12 +61,26 @@ Print Assumptions C26_old_closePipe_refuted.
 (* Headline: for every batch of registries and every list of phases of API
    calls, the model's observations satisfy the predicate the check evaluates on
    the implementation's observations. *)
-Theorem C26_model_meets_spec : forall batch,
+Theorem C26_model_meets_spec : forall batch storms,
   Forall (Forall (Forall api)) batch ->
   spec_ok {| c_runs := map (fun phases => {| r_phases := phases;
-                                             r_obs := Survived (run_phases st0 phases) |}) batch |} = true.
+                                             r_obs := Survived (run_phases st0 phases) |}) batch;
+             c_storms := map (fun kw => {| s_pipes := fst kw; s_workers := snd kw;
+                                           s_obs := StormSurvived false (reg st0) |}) storms |} = true.
 Proof. exact model_meets_spec_batch. Qed.
 Print Assumptions C26_model_meets_spec.
+
+(* the rounds the storm's workers run: on a free name (not null), create / get /
+   dump / delete, and create / get / close / fire, all succeed and give the
+   registry back unchanged — so, the steps being atomic (C26_registry_never_panics
+   etc. hold for every interleaving), a storm ends with only the null pipe left *)
+Theorem C26_storm_round_restores : forall s n,
+  has n (reg s) = false -> n <> 0%N ->
+  reg (run s [Create n; Get n; Dump; Delete n]) = reg s /\
+  reg (run s [Create n; Get n; Close n; Fire n]) = reg s /\
+  results s [Create n; Get n; Dump] = [ROk; ROk; RNames (insert n 1 (reg s))].
+Proof. exact storm_round_restores. Qed.
+Print Assumptions C26_storm_round_restores.
 
 (* Non-vacuity: a registry with a double close and a close-then-delete is
    accepted when observed as the (fixed) model predicts; spec_ok rejects a crash,
@@ -75,13 +89,16 @@ Print Assumptions C26_model_meets_spec.
 Example C26_nonvacuous :
   let ph := [[Create 1; Close 1; Close 1; Delete 1; Get 1]; [Create 1; Dump]]%N in
   Forall (Forall api) ph /\
-  spec_ok {| c_runs := [{| r_phases := ph; r_obs := Survived (run_phases st0 ph) |}] |} = true /\
-  spec_ok {| c_runs := [{| r_phases := ph; r_obs := Crashed |}] |} = false /\
+  spec_ok {| c_runs := [{| r_phases := ph; r_obs := Survived (run_phases st0 ph) |}]; c_storms := [] |} = true /\
+  spec_ok {| c_runs := [{| r_phases := ph; r_obs := Crashed |}]; c_storms := [] |} = false /\
   spec_ok {| c_runs := [{| r_phases := [[Create 1; Close 1]]%N;
                            r_obs := Survived [{| po_res := [ROk; ROk];
-                                                 po_dump := [(0,0); (1,1)]%N |}] |}] |} = false /\
+                                                 po_dump := [(0,0); (1,1)]%N |}] |}]; c_storms := [] |} = false /\
   spec_ok {| c_runs := [{| r_phases := [[Close 1]]%N;
-                           r_obs := Survived [{| po_res := [ROk]; po_dump := [(0,0)]%N |}] |}] |} = false.
+                           r_obs := Survived [{| po_res := [ROk]; po_dump := [(0,0)]%N |}] |}]; c_storms := [] |} = false /\
+  spec_ok {| c_runs := []; c_storms := [{| s_pipes := 300; s_workers := 6; s_obs := StormDied |}]%N |} = false /\
+  spec_ok {| c_runs := []; c_storms := [{| s_pipes := 300; s_workers := 6;
+                                           s_obs := StormSurvived false [(0,0)]%N |}]%N |} = true.
 Proof.
   split; [|vm_compute; repeat split].
   repeat constructor.
